@@ -20,7 +20,6 @@ def _quiet_imports():
 
 
 if __name__ == "__main__":
-    _quiet_imports()
     from sim import harness
     if sys.argv[2:] and sys.argv[2] == "replay":
         sys.exit(harness.replay_main(sys.argv))
